@@ -193,6 +193,7 @@ def run(ctx):
     alias_setters(ctx, "R14-g")
     derived_widths_capped(ctx, "R14-h")
     dump_omits_unconditionally(ctx, "R14-i")
+    overrides_always_mark_the_option_set(ctx, "R14-j")
 
     E = r.rule("R14-e", "width clamp closure of set_width_heuristics: not set ↦ heuristic value; set ∧ value > max_width ↦ max_width; "
                         "otherwise the user's value")
@@ -397,3 +398,45 @@ def dump_omits_unconditionally(ctx, rid):
                     r.violation(rid, "to_toml builds the dumped configuration only under a condition",
                                 "the construction does not dominate the serialisation call", ["%s:%d" % (f.file, st[3])])
     r.floor(rid, n, 3, "fields cleared by PartialConfig::to_toml")
+
+
+def overrides_always_mark_the_option_set(ctx, rid):
+    """R14-j: a `--config key=val` pair marks its option as explicitly set, whatever the value"""
+    p, r = ctx.p, ctx.r
+    r.rule(rid, "Config::override_value (the function every `--config key=val` pair and every CLI flag goes through): for each "
+                "option, once the value text has been parsed, every path to the end of the function stores `true` into the "
+                "option's was-set flag (`self.<opt>.1`).  The flag is what the later derivation steps ask — width heuristics, "
+                "deprecated aliases mapping to their successors — so a pair that is skipped because it restates the value already "
+                "in force is treated as unset and overwritten: the same two lines give one result in rustfmt.toml and another as "
+                "`--config`")
+    f = p.named("override_value", within="config::Config")
+    if f is None:
+        r.undecidable(rid, "Config::override_value not found")
+        return
+    marks = {}
+    for bb, i, st in f.stmts():
+        if st[0] == "=" and st[1][1] and st[2][0] == "use" and st[2][1][0] == "k" and st[2][1][2] is True:
+            fl = [e for e in st[1][1] if isinstance(e, list) and e[0] == "f"]
+            if len(fl) >= 2 and str(fl[-1][1]) == "1" and fl[-2][2] and fl[-2][2].endswith("config::Config"):
+                marks.setdefault(bb, fl[-2][4])
+    parses = [c for c in f.calls() if c.name.rsplit("::", 1)[-1] == "parse" and "str" in c.name]
+    n = 0
+    bad = []
+    for c in parses:
+        n += 1
+        reach = set()
+        for s0 in f.succ(c.bb):
+            reach |= f.reachable(s0, avoid_blocks=set(marks))
+        # failure of the parse is a panic / early error: only ordinary returns count
+        if any(b in reach for b in f.returns()):
+            # which option is this?  the nearest mark reachable from the parse
+            near = [marks[b] for b in marks if any(b in f.reachable(s0) for s0 in f.succ(c.bb))]
+            bad.append((c, near[0] if len(near) == 1 else "?"))
+    r.instance(rid, "override_value: %d options, each parse followed by its was-set store on every path" % len(parses),
+               "violation" if bad else "ok", "%s:%d" % (f.file, f.line), "%d was-set stores" % len(marks))
+    if bad:
+        r.violation(rid, "Config::override_value can return after parsing a value without marking the option as set",
+                    "%d option arms have a path from the parsed value to the return that skips `self.<opt>.1 = true` (first: %s)"
+                    % (len(bad), bad[0][1]), ["%s:%d" % (f.file, f.line)])
+    r.floor(rid, n, 50, "option arms of Config::override_value")
+    r.floor(rid, len(marks), 50, "was-set stores in Config::override_value")
